@@ -2,7 +2,9 @@
 (***************************************************************************)
 (* Trace specification for C15.  Events (f = packet record, b = bytes):    *)
 (*   <<"new", g, f>>            a packet constructed from the arguments g  *)
-(*                              has the fields f                           *)
+(*                              has the fields f (g holds the parameters   *)
+(*                              the caller gave; f every field)            *)
+(*   <<"raised", what, exc>>    a call in the property's domain raised     *)
 (*   <<"sdp_enc", f, b>>        SDPPacket(f).bytestring = b                *)
 (*   <<"sdp_dec", b, f>>        SDPPacket.from_bytestring(b) has fields f  *)
 (*   <<"scp_enc", f, b>>        SCPPacket(f).bytestring = b                *)
@@ -24,7 +26,7 @@ ScpFields == SdpFields \cup {"cmd", "seq", "args"}
 SameOn(F, a, b) == { f \in F : a[f] # b[f] } = {}
 
 Checks(e) ==
-  CASE e[1] = "new" -> [HoldsWhatWasGiven |-> e[3] = e[2]]
+  CASE e[1] = "new" -> [HoldsWhatWasGiven |-> \A fld \in DOMAIN e[2] : e[3][fld] = e[2][fld]]
     [] e[1] = "sdp_enc" -> [WireLayout |-> e[3] = EncodeSDP(e[2])]
     [] e[1] = "scp_enc" -> [WireLayout |-> e[3] = EncodeSCP(e[2])]
     [] e[1] = "sdp_dec" -> [DecodeFields |-> SameOn(SdpFields, e[3], DecodeSDP(e[2]))]
@@ -33,6 +35,7 @@ Checks(e) ==
          [DecodeFields  |-> SameOn(SdpFields \ {"data"}, e[4], d) /\ e[4].cmd = d.cmd /\ e[4].seq = d.seq,
           DecodeArgs    |-> e[4].args = d.args,
           DecodePayload |-> e[4].data = d.data]
+    [] e[1] = "raised" -> [CompletesWithoutError |-> FALSE]
     [] OTHER -> [UnknownEvent |-> FALSE]
 
 Bad == {c \in DOMAIN Checks(Ev) : ~Checks(Ev)[c]}
